@@ -715,7 +715,7 @@ Section Fuse.
   Qed.
 End Fuse.
 
-(* Whatever the order in which the handles' mutexes admit the requests -- [served] is ANY list, in particular any
+(* Whatever the order in which the handles' mutexes let the requests in -- [served] is ANY list, in particular any
    permutation of the requests that were issued concurrently -- every answer is right. *)
 Theorem fuse_any_admission_order H maxsz idx blob store n issued served :
   index_describes H idx blob -> store_sound H store -> Permutation issued served ->
